@@ -52,6 +52,7 @@ type c17Case struct {
 	MaxOK     int    `json:"maxOK"`     // whole-batch-only: calls with more than this many entities fail (0 = no limit)
 	Batch     int    `json:"batch"`     // batch size of the run (0 = one batch / job default)
 	Full      bool   `json:"full"`      // job driver: fullsync job type
+	Overlap   int    `json:"overlap"`   // job driver, incremental: at this sink call (1-based) another run request for the same job arrives (0 = none)
 }
 
 type c17Event struct {
@@ -87,6 +88,8 @@ type c17Sink struct {
 	fail      map[int]bool
 	failFirst int
 	maxOK     int
+	overlapAt int
+	overlap   func() // a second run request for the same job id (refused: the job is running)
 }
 
 func (s *c17Sink) GetConfig() map[string]interface{} {
@@ -94,6 +97,9 @@ func (s *c17Sink) GetConfig() map[string]interface{} {
 }
 
 func (s *c17Sink) processEntities(_ *Runner, entities []*server.Entity) error {
+	if s.overlap != nil && len(s.tr.calls)+1 == s.overlapAt {
+		s.overlap()
+	}
 	call := c17Call{}
 	for _, e := range entities {
 		call.ids = append(call.ids, c17Index(e.ID))
@@ -324,8 +330,27 @@ func (env *c17Env) job(c c17Case) (problem, infra string) {
 	}
 	tr := &c17Trace{}
 	j.errorHandlers[0].failingEntityHandler = &c17RecHandler{inner: j.errorHandlers[0].failingEntityHandler, tr: tr}
-	j.pipeline.spec().sink = c17NewSink(c, tr)
+	sink := c17NewSink(c, tr)
+	overlapped := false
+	if c.Overlap > 0 && !c.Full {
+		// an on-change event, a retry timer or a manual run request arriving while the job runs: the
+		// request is refused (one run per job id) and must not disturb the run in progress
+		sink.overlapAt = c.Overlap
+		sink.overlap = func() {
+			done := make(chan struct{})
+			go func() { defer close(done); defer func() { _ = recover() }(); j.Run() }()
+			select {
+			case <-done:
+				overlapped = true
+			case <-time.After(10 * time.Second):
+			}
+		}
+	}
+	j.pipeline.spec().sink = sink
 	res, pan := h.runJob(j)
+	if overlapped {
+		kit.S().Class("overlapping-run-request", 1)
+	}
 	if pan != nil {
 		return fmt.Sprintf("job run panicked: %v", pan), ""
 	}
@@ -558,6 +583,9 @@ func TestVerif_C17_sampled(t *testing.T) {
 		}
 		if c.Driver == "job" {
 			c.Full = rapid.IntRange(0, 3).Draw(t, "full") == 0
+			if !c.Full && rapid.IntRange(0, 2).Draw(t, "overlapping") == 0 {
+				c.Overlap = rapid.IntRange(1, 2*n).Draw(t, "overlapAt")
+			}
 		}
 		env.exec(c, t.Fatalf)
 	})
